@@ -764,6 +764,7 @@ class VacancyMediated(object):
 
         self.thermo.generate(Nthermo, originstates=False)
         self.kinetic.generate(Nthermo + 1, originstates=True)  # now include origin states (for removal)
+        self.vkinetic.starset = None  # kinetic was regenerated in place: the vector stars have to be rebuilt
         self.vkinetic.generate(self.kinetic)
         # TODO: check the GF calculator against the range in GFstarset to make sure its adequate
         self.GFexpansion, self.GFstarset = self.vkinetic.GFexpansion()
